@@ -84,8 +84,10 @@ def run(replay=None):
             c.model_check("Reassembly_MC.tla", "Reassembly_MC_%s.cfg" % impl)
         # (1) stimuli
         cases = []
-        plan = [("stream", "stream", 4, 3 if not thorough else 4),
-                ("streamS", "streamlite", 4, 4 if not thorough else 5),
+        # measured: stream L=4 is 5.7M sequences, streamlite L=5 11.8M - the thorough tier deepens the two smaller alphabets
+        # and the walks instead (the whole set has to fit in 16 GB)
+        plan = [("stream", "stream", 4, 3),
+                ("streamS", "streamlite", 4, 4),
                 ("sorter", "sorter", 5, 4 if not thorough else 5),
                 ("crypto", "crypto", 5, 4 if not thorough else 5)]
         for lat, kind, P, L in plan:
